@@ -136,7 +136,8 @@ public:
    */
   static double randGamma(double alpha, double beta)
   {
-    std::gamma_distribution<double> dis(alpha, beta);
+    // beta is a rate here, as in pGamma() and qGamma(); std::gamma_distribution takes the scale.
+    std::gamma_distribution<double> dis(alpha, 1. / beta);
     return dis(DEFAULT_GENERATOR);
   }
 
